@@ -25,6 +25,7 @@
 #include <asm/prctl.h>
 #include <sys/syscall.h>
 #include <sys/time.h>
+#include <sys/auxv.h>
 
 typedef struct {
   uint64_t gpr[16];       // rax rcx rdx rbx rsp rbp rsi rdi r8..r15      0..127
@@ -36,6 +37,10 @@ typedef struct {
 } ctx_t;
 ctx_t guest __attribute__((aligned(64)));
 uint64_t host_rsp;
+// FS base switching (needs FSGSBASE in user mode): the guest value is loaded right before IRETQ and the host value is
+// restored as the first thing in the signal handler; nothing in between touches thread-local storage
+uint64_t switch_fs = 0, host_fs = 0;
+static int have_fsgsbase = 0;
 extern void enter_guest(void);
 extern void recover(void);
 static uint8_t altstack[1 << 17];
@@ -56,6 +61,7 @@ __asm__(
 "  pushq 136(%rax)\n"
 "  pushq 160(%rax)\n"
 "  pushq 128(%rax)\n"
+"  mov switch_fs(%rip), %rcx; test %rcx, %rcx; jz 1f; wrfsbase %rcx; 1:\n"
 "  mov 8(%rax), %rcx; mov 16(%rax), %rdx; mov 24(%rax), %rbx; mov 40(%rax), %rbp; mov 48(%rax), %rsi; mov 56(%rax), %rdi\n"
 "  mov 64(%rax), %r8; mov 72(%rax), %r9; mov 80(%rax), %r10; mov 88(%rax), %r11; mov 96(%rax), %r12; mov 104(%rax), %r13; mov 112(%rax), %r14; mov 120(%rax), %r15\n"
 "  mov 0(%rax), %rax\n"
@@ -66,6 +72,7 @@ __asm__(
 );
 
 static void on_sig(int s, siginfo_t *si, void *uc_) {
+  if (switch_fs) __asm__ volatile("wrfsbase %0" :: "r"(host_fs));
   ucontext_t *uc = uc_;
   greg_t *g = uc->uc_mcontext.gregs;
   guest.gpr[0]=g[REG_RAX]; guest.gpr[1]=g[REG_RCX]; guest.gpr[2]=g[REG_RDX]; guest.gpr[3]=g[REG_RBX];
@@ -117,6 +124,7 @@ int main(void) {
   sigaction(SIGSEGV,&sa,0); sigaction(SIGFPE,&sa,0); sigaction(SIGILL,&sa,0); sigaction(SIGBUS,&sa,0); sigaction(SIGTRAP,&sa,0);
   uint64_t cs, ssr; __asm__ volatile("mov %%cs, %0" : "=r"(cs)); __asm__ volatile("mov %%ss, %0" : "=r"(ssr));
   syscall(SYS_arch_prctl, ARCH_GET_GS, &host_gs);
+  if (getauxval(AT_HWCAP2) & 2) { have_fsgsbase = 1; __asm__ volatile("rdfsbase %0" : "=r"(host_fs)); }
   static char line[1<<20];
   static uint8_t buf[1<<19];
   while (fgets(line, sizeof line, stdin)) {
@@ -169,14 +177,16 @@ int main(void) {
           if (c[k] == 0xcd || c[k] == 0xce || c[k] == 0xf1 || (c[k] == 0x0f && k + 1 < left && (c[k+1] == 0x05 || c[k+1] == 0x34 || c[k+1] == 0x07 || c[k+1] == 0x35))) { skip_case = 1; break; }
         }
       }
-      if (skip_case || guest_fs) { skip_case=1; printf("skip\n"); }
+      if (skip_case || (guest_fs && !have_fsgsbase)) { skip_case=1; printf("skip\n"); }
       else {
         guest.rflags = (guest.rflags & 0xcd5) | 0x202 | 0x100;   // status flags + DF, IF, reserved bit 1, TF
         guest.sig = 0; guest.fault = 0;
         if (guest_gs) syscall(SYS_arch_prctl, ARCH_SET_GS, guest_gs);
+        switch_fs = guest_fs;
         struct itimerval tv = { {0,0}, {2,0} }; setitimer(ITIMER_REAL, &tv, 0);
         enter_guest();
         struct itimerval z = { {0,0}, {0,0} }; setitimer(ITIMER_REAL, &z, 0);
+        switch_fs = 0;
         if (guest_gs) syscall(SYS_arch_prctl, ARCH_SET_GS, host_gs);
         stepped = 1;
         if (guest.sig == SIGTRAP) printf("ok\n"); else printf("sig%lu %lx\n", guest.sig, guest.fault);
